@@ -214,20 +214,8 @@ func runC16(c *Ctx) {
 		pm := parentMap(fi.Decl.Body)
 		check := func(n ast.Node, what string) {
 			ok := false
-			for p := pm[n]; p != nil; p = pm[p] {
-				ifs, isIf := p.(*ast.IfStmt)
-				if !isIf || !(ifs.Body.Pos() <= n.Pos() && n.End() <= ifs.Body.End()) {
-					continue
-				}
-				for _, fct := range impliedFacts(ifs.Cond, true) {
-					be, isBin := fct.expr.(*ast.BinaryExpr)
-					if !isBin || be.Op != token.NEQ || !fct.val {
-						continue
-					}
-					if s, isStr := stringConst(info, be.Y); isStr && s == "" && strings.HasSuffix(types.ExprString(be.X), ".URL.Schema") {
-						ok = true
-					}
-				}
+			if underSchemaScope(info, fi.Decl.Body, pm, n) {
+				ok = true
 			}
 			// an option function declared at package level: the guard is where the function is handed out
 			if !ok && fi.Decl.Recv == nil && fi.Decl.Type.Params.NumFields() == 1 && typeIs(derefType(info.TypeOf(fi.Decl.Type.Params.List[0].Type)), pMigrate, "PlanOptions") {
@@ -244,20 +232,8 @@ func runC16(c *Ctx) {
 							return true
 						}
 						refs++
-						for p := upm[id]; p != nil; p = upm[p] {
-							ifs, isIf := p.(*ast.IfStmt)
-							if !isIf || !(ifs.Body.Pos() <= id.Pos() && id.End() <= ifs.Body.End()) {
-								continue
-							}
-							for _, fct := range impliedFacts(ifs.Cond, true) {
-								be, isBin := fct.expr.(*ast.BinaryExpr)
-								if isBin && be.Op == token.NEQ && fct.val {
-									if s, isStr := stringConst(uinfo, be.Y); isStr && s == "" && strings.HasSuffix(types.ExprString(be.X), ".URL.Schema") {
-										guardedRefs++
-										return true
-									}
-								}
-							}
+						if underSchemaScope(uinfo, uf.Decl.Body, upm, id) {
+							guardedRefs++
 						}
 						return true
 					})
@@ -413,4 +389,85 @@ func checkQualifierFirst(c *Ctx, fi *FuncInfo) {
 		}
 	}
 	c.Check("R16a", fi.Name+"|qualifier tested before the schema's own name", nodePos(n, fi.Decl.Pos()), tested && !found, "in %s the schema's own name is consulted at %s on a path that did not first establish that no qualifier was requested: a requested qualifier would be ignored", fi.Name, c.nodeAt(n))
+}
+
+// underSchemaScope: n lies in a branch taken only when `<x>.URL.Schema != ""`
+// — the then-branch of an if whose condition implies it, the else-branch of one
+// whose negation does, with the test written inline or kept in a boolean local
+// that has a single definition.
+func underSchemaScope(info *types.Info, body *ast.BlockStmt, pm map[ast.Node]ast.Node, n ast.Node) bool {
+	var scoped func(e ast.Expr, val bool, depth int) bool
+	scoped = func(e ast.Expr, val bool, depth int) bool {
+		switch x := ast.Unparen(e).(type) {
+		case *ast.BinaryExpr:
+			if x.Op != token.NEQ && x.Op != token.EQL {
+				return false
+			}
+			str, other := x.Y, x.X
+			if s, ok := stringConst(info, x.X); ok && s == "" {
+				str, other = x.X, x.Y
+			}
+			if s, ok := stringConst(info, str); !ok || s != "" {
+				return false
+			}
+			if !strings.HasSuffix(types.ExprString(other), ".URL.Schema") {
+				return false
+			}
+			return (x.Op == token.NEQ) == val
+		case *ast.Ident:
+			if depth > 2 {
+				return false
+			}
+			obj := info.ObjectOf(x)
+			var defs []ast.Expr
+			ast.Inspect(body, func(m ast.Node) bool {
+				switch a := m.(type) {
+				case *ast.AssignStmt:
+					for i, l := range a.Lhs {
+						if id, ok := l.(*ast.Ident); ok && info.ObjectOf(id) == obj {
+							if len(a.Lhs) == len(a.Rhs) {
+								defs = append(defs, a.Rhs[i])
+							} else {
+								defs = append(defs, nil)
+							}
+						}
+					}
+				case *ast.ValueSpec:
+					for i, id := range a.Names {
+						if info.ObjectOf(id) == obj {
+							if i < len(a.Values) {
+								defs = append(defs, a.Values[i])
+							} else {
+								defs = append(defs, nil)
+							}
+						}
+					}
+				}
+				return true
+			})
+			return len(defs) == 1 && defs[0] != nil && scoped(defs[0], val, depth+1)
+		}
+		return false
+	}
+	for p := pm[n]; p != nil; p = pm[p] {
+		ifs, isIf := p.(*ast.IfStmt)
+		if !isIf {
+			continue
+		}
+		var edge bool
+		switch {
+		case ifs.Body.Pos() <= n.Pos() && n.End() <= ifs.Body.End():
+			edge = true
+		case ifs.Else != nil && ifs.Else.Pos() <= n.Pos() && n.End() <= ifs.Else.End():
+			edge = false
+		default:
+			continue
+		}
+		for _, fct := range impliedFacts(ifs.Cond, edge) {
+			if scoped(fct.expr, fct.val, 0) {
+				return true
+			}
+		}
+	}
+	return false
 }
